@@ -112,6 +112,22 @@ Example C15_offered_example :
   = map bs ["input"; "s1"; "s2"]%string.
 Proof. vm_compute. repeat split; reflexivity. Qed.
 
+(** a step whose name needs a quoted label, declared optional (`"s-2"?: {…}`): listed by its name
+    (repair 1d0cd11: the mark is trimmed before the quotes are stripped), blocked and not offered *)
+Definition ex_schema_quoted : cty :=
+  CStruct false [(mkLabel (bs "input") FRegular, CStruct false [(mkLabel (bs "_dependencies") FHidden, CDeps []); (mkLabel (bs "name") FRegular, CStr)]);
+                 (mkLabel (bs "s-1") FQuoted, ex_step []);
+                 (mkLabel (bs "s-2") FOptional, ex_step []);
+                 (mkLabel (bs "s-3") FRequired, ex_step ["s-1"%string])].
+
+Example C15_offered_quoted_example :
+  field_texts ex_schema_quoted = [bs "input"; dquote ++ bs "s-1" ++ dquote; dquote ++ bs "s-2" ++ dquote ++ bs "?"; dquote ++ bs "s-3" ++ dquote ++ bs "!"] /\
+  root_fields ex_schema_quoted = map bs ["input"; "s-1"; "s-2"; "s-3"]%string /\
+  blocked_root_fields ex_schema_quoted (bs "s-3") = Ok (map bs ["s-3"; "s-2"]%string) /\
+  offered_root ex_schema_quoted (bs "s-3") = Ok (Some (map bs ["input"; "s-1"]%string)).
+Proof. vm_compute. repeat split; reflexivity. Qed.
+
+Print Assumptions C15_offered_quoted_example.
 Print Assumptions available_fields_exact.
 Print Assumptions available_fields_minus_blocked.
 Print Assumptions C15_offered_root.
